@@ -562,3 +562,31 @@ V('c13-nm-drops-level', 'C13', 'hl7apy/base_datatypes.py', "        super(NM, se
 V('c13-si-factory-drops-level', 'C13', 'hl7apy/factories.py', "        return datatype_cls(int(value), validation_level=validation_level)", "        return datatype_cls(int(value))", rule='C13-L')
 V('c13-dt-drops-format', 'C13', 'hl7apy/base_datatypes.py', "        super(DT, self).__init__(value, out_format)", "        super(DT, self).__init__(value, '%Y%m%d')", rule='C13-F')
 V('c13-twin-regex-grouping', 'C13', 'hl7apy/utils.py', "(\\+(1[0-4]|0[0-9])|(-(1[0-2]|0[0-9])))", "(\\+(0[0-9]|1[0-4])|(-(0[0-9]|1[0-2])))", expect='clean')
+
+# ---------------------------------------------------------------- C14
+V('c14-lowercase-long-name', 'C14', 'hl7apy/v2_4/fields.py', "'ACCIDENT_DATE_TIME'", "'Accident_Date_Time'", rule='C14-U')
+V('c14-segment-no-upper', 'C14', 'hl7apy/core.py',
+  "        name = name.upper()\n        element = self.structure_by_name.get(name, None) or self.structure_by_longname.get(name, None)",
+  "        element = self.structure_by_name.get(name, None) or self.structure_by_longname.get(name, None)", rule='C14-F')
+V('c14-element-upper-after-lookup', 'C14', 'hl7apy/core.py',
+  "    def find_child_reference(self, name):\n        name = name.upper()\n        if isinstance(self.structure_by_name, MutableMapping):\n            element = self.structure_by_name.get(name) or self.structure_by_longname.get(name)\n        else:\n            element = None\n        if element is None:  # not found in self.structure\n            element = find_reference(name, self.child_classes.values(), self.version)\n            if Validator.is_strict",
+  "    def find_child_reference(self, name):\n        if isinstance(self.structure_by_name, MutableMapping):\n            element = self.structure_by_name.get(name) or self.structure_by_longname.get(name)\n        else:\n            element = None\n        name = name.upper()\n        if element is None:  # not found in self.structure\n            element = find_reference(name, self.child_classes.values(), self.version)\n            if Validator.is_strict",
+  rule='C14-F')
+V('c14-proxy-keeps-case', 'C14', 'hl7apy/core.py', "        self.element_name = element_name.upper()", "        self.element_name = element_name", rule='C14-F')
+V('c14-positional-off-by-one', 'C14', 'hl7apy/core.py', "                component_name = '{0}_{1}'.format(self.datatype, component)",
+  "                component_name = '{0}_{1}'.format(self.datatype, component + 1)", rule='C14-P')
+V('c14-subcomponent-uses-field-datatype', 'C14', 'hl7apy/core.py',
+  "                subcomponent_name = '{0}_{1}'.format(component_datatype, subcomponent)",
+  "                subcomponent_name = '{0}_{1}'.format(self.datatype, subcomponent)", rule='C14-P')
+V('c14-path-parts-swapped', 'C14', 'hl7apy/core.py', "            component = int(parts[2])\n            subcomponent = int(parts[3]) if len(parts) == 4 else None",
+  "            component = int(parts[3]) if len(parts) == 4 else int(parts[2])\n            subcomponent = int(parts[2]) if len(parts) == 4 else None", rule='C14-P')
+V('c14-segment-returns-none', 'C14', 'hl7apy/core.py',
+  "                element = find_reference(name, self.child_classes.values(), self.version)\n                if element:\n                    raise ChildNotValid(name, self)\n                else:\n                    raise ChildNotFound(name)\n        return element",
+  "                return None\n        return element", rule='C14-N')
+V('c14-support-complex-swallow', 'C14', 'hl7apy/core.py',
+  "            element = find_reference(name, self.child_classes.values(), self.version)\n            if element is None:\n                raise ChildNotFound(name)\n            # it means",
+  "            try:\n                element = find_reference(name, self.child_classes.values(), self.version)\n            except ChildNotFound:\n                element = None\n            # it means",
+  rule='C14-N')
+V('c14-datatype-position-renamed', 'C14', 'hl7apy/v2_6/datatypes.py', "('CX_2', DATATYPES['CX_2'], (0, 1), 'CMP'),\n           ('CX_3', DATATYPES['CX_3']",
+  "('CX_3', DATATYPES['CX_3'], (0, 1), 'CMP'),\n           ('CX_2', DATATYPES['CX_2']", rule='C14-P')
+V('c14-lib-find-returns-none', 'C14', 'hl7apy/v2_4/__init__.py', "            pass\n    raise ChildNotFound(name)", "            pass\n    return None", rule='C14-N')
